@@ -2,6 +2,7 @@ package config
 
 import (
 	"strings"
+	"time"
 
 	"github.com/jcmturner/gokrb5/v8/zzverif"
 )
@@ -223,4 +224,272 @@ func VH_C11_GetKDCsConcurrent() {
 	zzverif.Assert("each-configured-kdc-exactly-once", vhIsPermutation(c1, m1, orig) && vhIsPermutation(c2, m2, orig))
 	zzverif.Assert("configuration-unchanged-by-lookup", strings.Join(c.Realms[0].KDC, ",") == strings.Join(orig, ","))
 	zzverif.Reach("done")
+}
+
+// ---- C16: whole-file section splitting ------------------------------------------------------------------
+
+func vhBlank(n int) string {
+	s := zzverif.String(n)
+	for j := 0; j < n; j++ {
+		zzverif.Assume(zzverif.Or(s[j] == ' ', s[j] == '\t'))
+	}
+	return s
+}
+
+// vhNoiseLine: a line the parser must ignore wherever it stands: a blank line, or a comment (possibly indented)
+// whose text is arbitrary printable ASCII - including text that looks like a section header or a brace.
+func vhNoiseLine() string {
+	s := zzverif.String(4)
+	for j := 0; j < 4; j++ {
+		zzverif.Assume(zzverif.And(s[j] >= 0x20, s[j] < 0x7f))
+	}
+	comment0 := zzverif.Or(s[0] == '#', s[0] == ';')
+	comment1 := zzverif.And(s[0] == ' ', zzverif.Or(s[1] == '#', s[1] == ';'))
+	blank := zzverif.All(s[0] == ' ', s[1] == ' ', s[2] == ' ', s[3] == ' ')
+	zzverif.Assume(zzverif.Any(comment0, comment1, blank))
+	return s
+}
+
+// VH_C16_Sections: NewFromString on a file of `sections` sections in any order (each of libdefaults, realms,
+// domain_realm at most once; unknown sections with one- or two-letter names any number of times), every section
+// empty or with one relation, whitespace of `ws` bytes around the header, a noise line after every header and
+// after every section.  The loaded configuration holds exactly what was written, whatever the order.
+func VH_C16_Sections() {
+	nsec, wsl := zzverif.Param("sections"), zzverif.Param("ws")
+	text := ""
+	if zzverif.Param("lead") == 1 {
+		text += vhNoiseLine() + "\n"
+	}
+	var haveLib, haveRealms, haveDom bool
+	var wantRealm, wantDomKey, wantDomVal string
+	var wantDom, wantStanza bool
+	for i := 0; i < nsec; i++ {
+		kind := zzverif.Choose(0, 3)
+		name := ""
+		switch kind {
+		case 0:
+			zzverif.Assume(!haveLib)
+			haveLib = true
+			name = "libdefaults"
+		case 1:
+			zzverif.Assume(!haveRealms)
+			haveRealms = true
+			name = "realms"
+		case 2:
+			zzverif.Assume(!haveDom)
+			haveDom = true
+			name = "domain_realm"
+		default:
+			name = zzverif.String(zzverif.Choose(1, 2))
+			for j := 0; j < len(name); j++ {
+				zzverif.Assume(zzverif.And(name[j] >= 'a', name[j] <= 'z'))
+			}
+		}
+		text += vhBlank(wsl) + "[" + name + "]" + vhBlank(wsl) + "\n"
+		text += vhNoiseLine() + "\n"
+		if zzverif.Choose(0, 1) == 1 {
+			switch kind {
+			case 0:
+				r := zzverif.String(1)
+				zzverif.Assume(zzverif.And(r[0] >= 'A', r[0] <= 'Z'))
+				text += " default_realm = " + r + "\n"
+				wantRealm = r
+			case 1:
+				text += " R = {\n  kdc = h\n }\n"
+				wantStanza = true
+			case 2:
+				d, r := zzverif.String(1), zzverif.String(1)
+				zzverif.Assume(zzverif.All(d[0] >= 'a', d[0] <= 'z', r[0] >= 'A', r[0] <= 'Z'))
+				text += " ." + d + " = " + r + "\n"
+				wantDom, wantDomKey, wantDomVal = true, "."+d, r
+			default:
+				// whatever stands in a section the library does not know is not its business
+				text += " }\n x = {\n"
+			}
+			text += vhNoiseLine() + "\n"
+		}
+	}
+	c, err := NewFromString(text)
+	zzverif.Assert("documented-syntax-loads", err == nil && c != nil)
+	if err != nil || c == nil {
+		return
+	}
+	zzverif.Reach("loaded")
+	zzverif.Assert("default-realm-as-written", c.LibDefaults.DefaultRealm == wantRealm)
+	if wantDom {
+		zzverif.Assert("domain-mapping-as-written", len(c.DomainRealm) == 1 && c.DomainRealm[wantDomKey] == wantDomVal)
+	} else {
+		zzverif.Assert("no-domain-mapping-invented", len(c.DomainRealm) == 0)
+	}
+	if wantStanza {
+		zzverif.Assert("realm-stanza-as-written", len(c.Realms) == 1 && c.Realms[0].Realm == "R" && len(c.Realms[0].KDC) == 1 && c.Realms[0].KDC[0] == "h:88")
+	} else {
+		zzverif.Assert("no-realm-invented", len(c.Realms) == 0)
+	}
+}
+
+// ---- C16: durations --------------------------------------------------------------------------------------
+
+// vhNumber: a decimal number of exactly `digits` symbolic digits (leading zeros allowed) and its value.
+func vhNumber(digits int) (string, int64) {
+	s := zzverif.String(digits)
+	var v uint64
+	for i := 0; i < digits; i++ {
+		zzverif.Assume(zzverif.And(s[i] >= '0', s[i] <= '9'))
+		v = v*10 + uint64(s[i]) - '0'
+	}
+	return s, int64(v)
+}
+
+// vhNumberS: the same, computed the way strconv does (the value is the same; the shape of the term decides whether
+// the solver can compare sums of three products - see DESIGN 11.3, C16).
+func vhNumberS(digits int) (string, int64) {
+	s := zzverif.String(digits)
+	var v uint64
+	for i := 0; i < digits; i++ {
+		zzverif.Assume(zzverif.And(s[i] >= '0', s[i] <= '9'))
+		v *= 10
+		v = v + uint64(s[i]-'0')
+	}
+	return s, int64(v)
+}
+
+// vhDuration: a duration in one of the documented krb5.conf formats - N (seconds), h:m, h:m:s, or any non-empty
+// combination NdNhNmNs - with arbitrary digits, and the value it denotes in nanoseconds (summed unit by unit: one
+// multiplication by a constant per number keeps the comparison within the solver's reach).
+func vhDuration(digits int) (string, int64) {
+	form := zzverif.Choose(0, 17)
+	if f := zzverif.Param("form"); f >= 0 {
+		zzverif.Assume(form == f)
+	}
+	switch {
+	case form == 0:
+		s, v := vhNumber(digits)
+		zzverif.Assume(v > 0) // "0" alone is rejected by the library; MIT reads it as zero seconds.  Not claimed either way.
+		return s, v * 1000000000
+	case form == 16:
+		h, hv := vhNumberS(digits)
+		m, mv := vhNumberS(digits)
+		return h + ":" + m, hv*3600000000000 + mv*60000000000
+	case form == 17:
+		h, hv := vhNumberS(digits)
+		m, mv := vhNumberS(digits)
+		s, sv := vhNumberS(digits)
+		return h + ":" + m + ":" + s, hv*3600000000000 + mv*60000000000 + sv*1000000000
+	}
+	// form 1..15: bit 3 = days, bit 2 = hours, bit 1 = minutes, bit 0 = seconds
+	text, total := "", int64(0)
+	units := []struct {
+		bit  int
+		name string
+		secs int64
+	}{{8, "d", 24 * 3600000000000}, {4, "h", 3600000000000}, {2, "m", 60000000000}, {1, "s", 1000000000}}
+	for _, u := range units {
+		if form&u.bit != 0 {
+			n, v := vhNumber(digits)
+			text += n + u.name
+			if u.bit == 8 {
+				total += (v * 24) * 3600000000000
+			} else {
+				total += v * u.secs
+			}
+		}
+	}
+	return text, total
+}
+
+// VH_C16_ParseDuration: every documented duration format denotes the documented value, with blanks around it.
+func VH_C16_ParseDuration() {
+	text, ns := vhDuration(zzverif.Param("digits"))
+	d, err := parseDuration(vhBlank(1) + text + vhBlank(1))
+	zzverif.Assert("documented-duration-accepted", err == nil)
+	zzverif.Assert("duration-has-the-documented-value", int64(d) == ns)
+	zzverif.Reach("parsed")
+}
+
+// ---- C16: [libdefaults] relations ----------------------------------------------------------------------------
+
+func vhLibDefaultsScalarsEqual(a, b *LibDefaults) bool {
+	return zzverif.All(a.AllowWeakCrypto == b.AllowWeakCrypto, a.Canonicalize == b.Canonicalize, a.CCacheType == b.CCacheType,
+		a.Clockskew == b.Clockskew, a.DefaultClientKeytabName == b.DefaultClientKeytabName, a.DefaultKeytabName == b.DefaultKeytabName,
+		a.DefaultRealm == b.DefaultRealm, a.DNSCanonicalizeHostname == b.DNSCanonicalizeHostname, a.DNSLookupKDC == b.DNSLookupKDC,
+		a.DNSLookupRealm == b.DNSLookupRealm, a.Forwardable == b.Forwardable, a.IgnoreAcceptorHostname == b.IgnoreAcceptorHostname,
+		a.K5LoginAuthoritative == b.K5LoginAuthoritative, a.K5LoginDirectory == b.K5LoginDirectory, a.KDCTimeSync == b.KDCTimeSync,
+		a.NoAddresses == b.NoAddresses, a.Proxiable == b.Proxiable, a.RDNS == b.RDNS, a.RealmTryDomains == b.RealmTryDomains,
+		a.RenewLifetime == b.RenewLifetime, a.SafeChecksumType == b.SafeChecksumType, a.TicketLifetime == b.TicketLifetime,
+		a.UDPPreferenceLimit == b.UDPPreferenceLimit, a.VerifyAPReqNofail == b.VerifyAPReqNofail,
+		len(a.DefaultTGSEnctypes) == len(b.DefaultTGSEnctypes), len(a.DefaultTktEnctypes) == len(b.DefaultTktEnctypes),
+		len(a.PermittedEnctypes) == len(b.PermittedEnctypes), len(a.PreferredPreauthTypes) == len(b.PreferredPreauthTypes),
+		len(a.ExtraAddresses) == len(b.ExtraAddresses))
+}
+
+// VH_C16_LibDefaultsRelation: one relation of the [libdefaults] section, `key = value` with blanks around both, for
+// every key of the chosen group and an arbitrary valid value: exactly the field the key names takes exactly the
+// documented value; every other field keeps its default.
+func VH_C16_LibDefaultsRelation() {
+	group := zzverif.Param("group")
+	got, want := newLibDefaults(), newLibDefaults()
+	key, val := "", ""
+	switch group {
+	case 0: // booleans, one-letter spellings (every spelling: the parse-boolean instances)
+		v := zzverif.String(1)
+		zzverif.Assume(zzverif.Any(v[0] == 'y', v[0] == 'n', v[0] == 't', v[0] == '1', v[0] == '0', v[0] == 'Y', v[0] == 'N', v[0] == 'T'))
+		b := zzverif.Any(v[0] == 'y', v[0] == 't', v[0] == '1', v[0] == 'Y', v[0] == 'T')
+		val = v
+		bools := []struct {
+			key string
+			f   *bool
+		}{{"allow_weak_crypto", &want.AllowWeakCrypto}, {"canonicalize", &want.Canonicalize}, {"dns_canonicalize_hostname", &want.DNSCanonicalizeHostname},
+			{"dns_lookup_kdc", &want.DNSLookupKDC}, {"dns_lookup_realm", &want.DNSLookupRealm}, {"forwardable", &want.Forwardable},
+			{"ignore_acceptor_hostname", &want.IgnoreAcceptorHostname}, {"k5login_authoritative", &want.K5LoginAuthoritative}, {"noaddresses", &want.NoAddresses},
+			{"proxiable", &want.Proxiable}, {"rdns", &want.RDNS}, {"verify_ap_req_nofail", &want.VerifyAPReqNofail}}
+		k := zzverif.Choose(0, len(bools)-1)
+		key = bools[k].key
+		*bools[k].f = b
+	case 1: // durations
+		text, ns := vhDuration(1)
+		val = text
+		durs := []struct {
+			key string
+			f   *time.Duration
+		}{{"clockskew", &want.Clockskew}, {"renew_lifetime", &want.RenewLifetime}, {"ticket_lifetime", &want.TicketLifetime}}
+		k := zzverif.Choose(0, len(durs)-1)
+		key = durs[k].key
+		*durs[k].f = time.Duration(ns)
+	case 2: // integers within their documented ranges
+		text, v := vhNumber(zzverif.Choose(1, 5))
+		val = text
+		ints := []struct {
+			key    string
+			f      *int
+			lo, hi int64
+		}{{"ccache_type", &want.CCacheType, 0, 4}, {"kdc_timesync", &want.KDCTimeSync, 0, 99999}, {"realm_try_domains", &want.RealmTryDomains, 0, 99999},
+			{"safe_checksum_type", &want.SafeChecksumType, 0, 99999}, {"udp_preference_limit", &want.UDPPreferenceLimit, 0, 32700}}
+		k := zzverif.Choose(0, len(ints)-1)
+		key = ints[k].key
+		if v > ints[k].hi {
+			// out of the documented range: the relation is rejected
+			err := got.parseLines([]string{vhBlank(1) + key + vhBlank(1) + "=" + vhBlank(1) + val + vhBlank(1)})
+			zzverif.Assert("out-of-range-value-rejected", err != nil)
+			zzverif.Reach("rejected")
+			return
+		}
+		*ints[k].f = int(v)
+	default: // strings
+		v := zzverif.String(2)
+		zzverif.Assume(zzverif.All(v[0] > ' ', v[0] < 0x7f, v[0] != '#', v[0] != ';', v[0] != '=', v[1] > ' ', v[1] < 0x7f, v[1] != '#', v[1] != ';', v[1] != '='))
+		val = v
+		strs := []struct {
+			key string
+			f   *string
+		}{{"default_client_keytab_name", &want.DefaultClientKeytabName}, {"default_keytab_name", &want.DefaultKeytabName}, {"default_realm", &want.DefaultRealm},
+			{"k5login_directory", &want.K5LoginDirectory}}
+		k := zzverif.Choose(0, len(strs)-1)
+		key = strs[k].key
+		*strs[k].f = v
+	}
+	err := got.parseLines([]string{vhBlank(1) + key + vhBlank(1) + "=" + vhBlank(1) + val + vhBlank(1)})
+	zzverif.Assert("documented-relation-accepted", err == nil)
+	zzverif.Assert("named-field-takes-the-value-and-no-other-field-changes", vhLibDefaultsScalarsEqual(&got, &want))
+	zzverif.Reach("parsed")
 }
